@@ -139,7 +139,15 @@ func (encryptor *MySQLTokenizeQuery) OnBind(ctx context.Context, statement sqlpa
 	}
 
 	bindData := mysql.ParseSearchQueryPlaceholdersSettings(statement, encryptor.schemaStore)
-	if len(bindData) > len(indexes) {
+	// bindData also lists the placeholders of searchable columns of the same statement (those belong to the
+	// observer of searchable encryption): only the placeholders of tokenized columns have to be among the indexes
+	ownPlaceholders := 0
+	for _, setting := range bindData {
+		if setting.IsTokenized() {
+			ownPlaceholders++
+		}
+	}
+	if ownPlaceholders > len(indexes) {
 		return values, false, nil
 	}
 	// Finally, once we know which values to replace with tokenized values, do this replacement.
